@@ -4,7 +4,8 @@ CONSTANTS
   Space = "dup"
   Shapes <- ShapesOf
   FmtChoices <- Fmt0
-  Q <- QAB
+  DCtx <- DCAB
+  Prec = "most_common"
   CurSeq <- CS3
   InvNull = "skip"
   Mut = "byname"
